@@ -121,16 +121,44 @@ def pair_eval(case):
     returns the rows of its own file"""
     from cardutil import mciipm
     built = [build(c) for c in case['pair']]
+    kw = {}
+    shared = None
+    if case.get('sharedlayout'):
+        # ONE layout object handed to both readers (a caller keeps one configuration): neither reader changes it
+        import copy
+        shared = {c['table']: copy.deepcopy(c['layout']) for c in case['pair']}
+        kw = {'param_config': shared}
     readers = [mciipm.IpmParamReader(io.BytesIO(d), c['table'], encoding=c['codec'], blocked=bool(c['b']),
-                                     expanded=bool(c['expanded'])) for (d, _), c in zip(built, case['pair'])]
+                                     expanded=bool(c['expanded']), **kw) for (d, _), c in zip(built, case['pair'])]
     why = None
     obs = []
+    results = []
+    if case.get('zipped'):
+        # both readers advanced in turns (zip): a row of one is read between two rows of the other
+        its = [iter(r) for r in readers]
+        outs = [[], []]
+        ends = [None, None]
+        live = [True, True]
+        while any(live):
+            for i in (0, 1):
+                if live[i]:
+                    try:
+                        outs[i].append(next(its[i]))
+                    except StopIteration:
+                        live[i] = False
+                    except Exception as ex:  # noqa
+                        live[i], ends[i] = False, ex
+        results = list(zip(outs, ends))
     for i, (r, (_, expected)) in enumerate(zip(readers, built)):
-        rows, exc = read_all(r)
+        rows, exc = results[i] if results else read_all(r)
         obs.append(f'{len(rows)}:{"eof" if exc is None else type(exc).__name__}')
         if why is None and (exc is not None or rows != expected):
             why = (f'reader {i + 1} of two created before either was iterated returned {len(rows)} rows '
                    f'({"end of data" if exc is None else type(exc).__name__}); its own file holds {len(expected)} rows of the table')
+    if why is None and shared is not None:
+        want = {c['table']: c['layout'] for c in case['pair']}
+        if shared != want:
+            why = "reading changed the caller's layout configuration (entries added or altered)"
     return {'obs': 'ok ' + ' '.join(obs), 'violation': why, 'nontrivial': True, 'tags': ['two-readers']}
 
 
@@ -141,13 +169,19 @@ def impl_eval(case):
     from cardutil.cli import mci_ipm_param_to_csv
     data, expected = build(case)
     kw = dict(encoding=case['codec'], blocked=bool(case['b']), expanded=bool(case['expanded']))
+    lay_arg = None
     if case.get('layout'):
-        kw['param_config'] = {case['table']: case['layout']}
+        import copy as _copy
+        lay_arg = _copy.deepcopy(case['layout'])
+        kw['param_config'] = {case['table']: lay_arg}
     try:
         reader = mciipm.IpmParamReader(io.BytesIO(data), case['table'], **kw)
         rows, exc = read_all(reader)
     except Exception as ex:  # noqa
         rows, exc = [], ex
+    if lay_arg is not None and lay_arg != case['layout']:
+        return {'obs': 'caller-config-changed', 'violation': "reading changed the caller's layout configuration",
+                'tags': ['config-changed']}
     end = 'eof' if exc is None else ('err' if isinstance(exc, mciipm.MciIpmDataError) else 'escape:' + type(exc).__name__)
     why = None
     lay = case.get('layout') or layouts().get(case['table'])
@@ -300,4 +334,19 @@ def explore(run, tier):
         pair[1]['tables'] = list(reversed(pair[0]['tables']))
         pair[1]['table'] = pair[1]['tables'][0] if i % 2 else pair[0]['table']
         cases.append({'pair': pair})
+    # two readers of DIFFERENT representations (one compressed, one expanded) alive at the same time, advanced in turns,
+    # with the packaged layouts or with one caller-owned layout object shared by both
+    for i in range(8 if tier == 'quick' else 60):
+        tables = rng.sample(configured, min(len(configured), 3))
+        lay = gen_layout(rng)
+        for shared in (False, True):
+            pair = []
+            for j in range(2):
+                c = {'seed': rng.getrandbits(40), 'tables': tables, 'nrows': 10, 'codec': ['latin_1', 'cp500'][(i + j) % 2],
+                     'b': (i + j) % 2, 'table': tables[0], 'expanded': (i + j) % 2}
+                if shared:
+                    c['layout'] = lay
+                pair.append(c)
+            cases.append({'pair': pair, 'zipped': True, 'sharedlayout': shared})
+            cases.append({'pair': pair, 'zipped': False, 'sharedlayout': shared})
     run.correspond(__name__, cases, use_model=run.use_model, chunk=40)
